@@ -1342,14 +1342,15 @@ def c11(project, obs, view=None):
         return [F("C11/hang", "the run hangs after the backend raised on event %d" % k, obs.get("dump"))]
     text = (obs.get("fault") or {}).get("text") or ""
     # (a BaseException that is no Exception — GeneratorExit, SystemExit, KeyboardInterrupt raised inside a handler — gets
-    # its own signature suffix: finding D42; every other class keeps the plain signatures)
+    # its own signature suffix: finding D42, REPAIRED — the entries are `fixed`, a reappearance is a plain violation; every
+    # other class keeps the plain signatures)
     sfx = ("/not-an-Exception:" + cls) if cls in ("GeneratorExit", "SystemExit", "KeyboardInterrupt") else ""
     if "returned" in oc:
         out.append(F("C11/fault-silently-ignored" + sfx, "backend raised %s on event %d but run_suites returned %r" % (cls, k, oc["returned"])))
     elif text.strip() and text.strip() not in oc.get("text", ""):
         # (the text is looked for without its leading / trailing blanks: KeyError and friends show their argument
         # repr()-escaped, so a line break at its edge reads "\\n" there — the words of the message are what must survive)
-        # (D42 again when the class is no Exception: the fault is lost, what the caller sees is another error of the run —
+        # (D42, repaired, again when the class is no Exception: the fault was lost, what the caller sees is another error of the run —
         # e.g. the text of a pre_run teardown that raised)
         out.append(F("C11/original-text-lost/" + (sfx[1:] if sfx else cls), "caller saw %s(%r) without the original text %r" % (oc["raised"], oc["text"][:200], text)))
     pf = obs.get("pending_failure_at")
